@@ -84,6 +84,21 @@ def main():
             {'no_longer_checks': broken, 'rerun': f'cd /verif/coq && make Properties/{pid}.vo'},
             signature='proof-broken', found_input=False))
     coverage.update(gen_info)
+    if tier == 'thorough' and proofs_ok and os.environ.get('VERIF_SKIP_COQCHK') != '1':
+        # independent re-check of the compiled proofs and everything they depend on
+        import subprocess
+        tb = time.time()
+        try:
+            p = subprocess.run(['timeout', '3000', 'coqchk', '-silent', '-o', '-Q', core.COQ, 'Verif', f'Verif.Properties.{pid}'],
+                               stdout=subprocess.PIPE, stderr=subprocess.STDOUT, text=True)
+            summ = p.stdout[p.stdout.find('CONTEXT SUMMARY'):] if 'CONTEXT SUMMARY' in p.stdout else p.stdout[-1500:]
+            coverage['coqchk'] = {'rc': p.returncode, 'seconds': round(time.time() - tb, 1),
+                                  'summary': ' '.join(summ.split())[:1500]}
+            if p.returncode != 0:
+                violations.append(core.Violation('coqchk', 'coqchk rejected the compiled development: ' + p.stdout[-400:],
+                                                 {'output_tail': p.stdout[-3000:]}, signature='coqchk', found_input=False))
+        except Exception as e:  # noqa: BLE001
+            coverage['coqchk'] = {'error': repr(e)}
     rc = core.finish(pid, tier, seed, t0, coverage, violations, assumptions, theorems=theorems,
                      build_ok=proofs_ok)
     core.log(f'[{pid}] {tier} done in {time.time()-t0:.1f}s rc={rc} '
